@@ -207,6 +207,31 @@ CLAIMS["C11"] = dict(
     design_ref="DESIGN.md section 4, C11",
     technique="static analysis: abstract interpretation on generic symbolic tensors, exact rational identities and limits, slot-table agreement, frame typing")
 
+CLAIMS["C17"] = dict(
+    category="other",
+    text=("Decides the structural contract of ScalarRootFind: the guess is clipped into the bracket before any use, NaN seeding on a "
+          "missing sign change precedes the end-point overrides (so an end-point root is returned), each step reads the previous "
+          "guess; f(bracket[k]) == 0 selects bracket[k] and sets converged; orientation and bracket maintenance share one sign "
+          "convention; the bisection step is the bracket midpoint, the Newton step x - f/f' and Newton is rejected by the product "
+          "test when it leaves the bracket; the while-loop carry has one order everywhere; the result is NaN unless converged; "
+          "find_root is custom_root(f, x0, rtsafe_ on the same bracket/settings, y/g(1)). That the returned value meets the "
+          "tolerance and lies in the bracket for every function is trajectory dependent and NOT decided."),
+    design_ref="DESIGN.md section 4, C17",
+    technique="static analysis: ordering via reaching definitions/dominators, pairing and sign-convention sibling rules, slot-table agreement, algebraic normal forms")
+
+CLAIMS["C16"] = dict(
+    category="other",
+    text=("Decides: the four edge-normal implementations evaluate, on a generic symbolic edge, to the unit vector (t_y,-t_x)/|t|; "
+          "the closest-point parameter is -v.(a-p)/v.v, cpp clamps it to [0,1], cpp_distance pairs t<0 with the first and t>1 with "
+          "the second end point using sign * end-point distance with the zero sign mapped to +1; every level-set constraint / "
+          "penalty kernel evaluates the obstacle function at quadrature points of (edge coordinates + edge displacements) and the "
+          "vmapped totals pass the same roles; the penalty integrand is stiffness * integral of square(minimum(0, phi)) with "
+          "non-negative weights; mortar weights use smoothed end parameters of their own side (A signed, B through abs), the "
+          "degree-2 Gauss rule, the average of both sides, and the smoothed parameter is the specified C1 ramp. Distances, "
+          "rigid-motion invariance and overlap lengths as numbers are NOT decided."),
+    design_ref="DESIGN.md section 4, C16",
+    technique="static analysis: sibling comparison by symbolic evaluation, pairing/clamping rules, dependency analysis of sample points, integrand-shape rules")
+
 NA = {}
 
 
